@@ -902,6 +902,22 @@ def _eval_pkg(spec):
             except Exception as e:  # noqa: BLE001
                 reuse.append({"z": z, "exc": repr(e)[:200]})
         res["cfg_reuse"] = reuse
+        # a compressed envelope cut off in the middle of its payload (a partially written file) is refused — and the intact
+        # envelope decoded right afterwards, in the same process, comes back whole (seeded changes C09-6 / C09-7: one
+        # streaming decompressor shared by all calls, left mid-frame by the failed decode)
+        try:
+            rawz = pkg.to_bytes(EnvelopeConfig(format=EnvelopeFormat.JSON, zstd=0))
+            cut = rawz[: 10 + max(1, (len(rawz) - 10) // 2)]
+            try:
+                Package.from_bytes(cut)
+                res["after_truncated"] = {"cut_accepted": True}
+            except Exception:  # noqa: BLE001
+                try:
+                    res["after_truncated"] = {"same": _docs(Package.from_bytes(rawz)) == want2}
+                except Exception as e:  # noqa: BLE001
+                    res["after_truncated"] = {"exc": repr(e)[:200]}
+        except Exception as e:  # noqa: BLE001
+            res["after_truncated"] = {"skip": repr(e)[:200]}
     except Exception as e:  # noqa: BLE001
         res["mut"] = {"skip": repr(e)[:200]}
     # reference: the package codec without any envelope
@@ -1286,6 +1302,11 @@ def _oracle_pkg(spec):
         if not u["same"]:
             fails.append(Failure("Package.from_bytes", "configuration-object-used-again-after-an-edit:decodes-to-another-package", f"zstd={u['z']}"))
             break
+    at = res.get("after_truncated", {})
+    if "exc" in at:
+        fails.append(Failure("Package.from_bytes", "valid-compressed-envelope-refused-after-a-truncated-one", at["exc"]))
+    elif at.get("same") is False:
+        fails.append(Failure("Package.from_bytes", "valid-compressed-envelope-decodes-differently-after-a-truncated-one", ""))
     for r in res["cfgs"]:
         if "bad_cfg" in r:
             continue
